@@ -256,7 +256,7 @@ pub fn judge(w: &World, r: &RunResult) -> Vec<Violation> {
 
 pub fn run(ctx: &Ctx) -> Report {
     let mut rep = Report::new(
-        "per world: 1 server, records {u1(pw1,a), u2(pw2,b), u3(pw1,b), u1 re-registered(pw1,a), none}, credential ids {a,b}, an old complete u1 login (replay source), live client sessions {pw1, pw2, wrong pw, pw1}; every request (4 live + old) -> every (record|none, cred) = 50 server sessions; every response (50 + old) -> every pending client = 204 client finishes; every finalization that may exist -> every server session; executed in a seeded random topological order with one shared RNG per party (flavour A) or label tapes + a second interleaving compared output-by-output (flavour B); then faults stop and every registered user must complete one honest login in four steps. Oracle: Model A on every finish, key agreement, pairwise-distinct session keys. Quick samples 1/4 of the client finishes on the P-384/P-521 key-exchange groups",
+        "per world: 1 server, records {u1(pw1,a), u2(pw2,b), u3(pw1,b), u1 re-registered(pw1,a), none}, credential ids {a,b}, an old complete u1 login (replay source), live client sessions {pw1, pw2, wrong pw, pw1}; every request (4 live + old) -> every (record|none, cred) = 50 server sessions; every response (50 + old) -> every pending client = 204 client finishes; every finalization that may exist -> every server session; executed in a seeded random topological order with one shared RNG per party (flavour A) or label tapes + a second interleaving compared output-by-output (flavour B); then faults stop and every registered user must complete one honest login in four steps. Oracle: Model A on every finish, key agreement, pairwise-distinct session keys. Quick samples 1/4 of the client finishes on the P-384/P-521 key-exchange groups. Plus seeded random walks (40-120 random ops over 1-3 setups incl. a key-swapped one, 4 passwords, 3 credential ids incl. a whitespace twin, 5 identity sets, 4 contexts, 3 KSF spellings; every input a random existing item, random codecs, random crash/reload), judged by Model A",
     );
     let mut suites: Vec<&'static dyn SuiteOps> = SIM_SUITES.to_vec();
     if !ctx.quick() {
@@ -279,6 +279,215 @@ pub fn run(ctx: &Ctx) -> Report {
         gen_world(seed, k, s, k % 2 == 0, sample).world
     };
     super::world_batch(ctx, &mut rep, jobs.len(), &gen, OWN, false, Some(&judge));
+    // unstructured seeded random walks over the same op grammar
+    let cper = ctx.pick(12, 600);
+    let cjobs: Vec<(usize, u64)> = (0..suites.len()).flat_map(|si| (0..cper).map(move |k| (si, k as u64))).collect();
+    let genc = |i: usize| {
+        let (si, k) = cjobs[i];
+        gen_chaos(seed, k, suites[si], 40 + (k as usize % 5) * 20)
+    };
+    super::world_batch(ctx, &mut rep, cjobs.len(), &genc, OWN, false, None);
     rep.exhaustive = Some(false);
     rep
+}
+
+// ------------------------------------------------------------------ seeded random walk ("chaos") worlds
+
+/// A seeded random walk over the op grammar. Several users register and log in
+/// concurrently; each step advances a random session. Most steps are honest
+/// (so runs make real progress and complete logins), about a quarter deviate in
+/// exactly one aspect drawn at random: a message or state taken from another
+/// session / user / server (replay, cross-delivery, duplication), another
+/// password, credential id, identity set, context, KSF spelling or setup, a
+/// crash/reload of a random party. Deliveries go through random codecs.
+/// Model A judges every finish step.
+pub fn gen_chaos(seed: u64, idx: u64, s: &dyn SuiteOps, nops: usize) -> World {
+    let mut g = Gen::new(seed, &format!("gen/c07chaos/{}/{}", s.name(), idx));
+    let mut b = WB::new(s, seed, idx, "c07 seeded random walk");
+    let fam = s.ksf_family();
+    let mut setups = vec![b.setup(false)];
+    if g.chance(1, 2) {
+        setups.push(b.setup(g.chance(1, 3)));
+        let out = b.id();
+        b.push(Op::SpliceSetup { out, seed_from: setups[0], key_from: setups[1] });
+        setups.push(out);
+    }
+    let pw_a = small_pw(&mut g);
+    let mut pw_a2 = pw_a.clone();
+    pw_a2.push(b'x');
+    let pws: Vec<Vec<u8>> = vec![pw_a.clone(), pw_a2, small_pw(&mut g), pw_a];
+    let creds: Vec<Vec<u8>> = vec![small_cred(&mut g), b"user".to_vec(), b"user ".to_vec()];
+    let idsets: Vec<WIds> = vec![
+        WIds::default(),
+        WIds { client: IdSpec::Bytes(b"alice".to_vec().into()), server: IdSpec::Absent },
+        WIds { client: IdSpec::Bytes(b"alice".to_vec().into()), server: IdSpec::Bytes(b"srv".to_vec().into()) },
+        WIds { client: IdSpec::Absent, server: IdSpec::Bytes(b"srv".to_vec().into()) },
+        WIds { client: IdSpec::Bytes(b"bob".to_vec().into()), server: IdSpec::Bytes(b"srv".to_vec().into()) },
+    ];
+    let ctxs: Vec<Option<Vec<u8>>> = vec![None, Some(vec![]), Some(b"ctx".to_vec()), Some(b"cty".to_vec())];
+    let ksfs: Vec<crate::suite::KsfArg> = vec![crate::suite::KsfArg::Absent, default_ksf_explicit(fam), gen_ksf(&mut g, fam, true)];
+    #[derive(Clone)]
+    struct User {
+        setup: usize,
+        pw: usize,
+        cred: usize,
+        ids: usize,
+        ksf: usize,
+        record: Option<u32>,
+    }
+    #[derive(Clone)]
+    struct Sess {
+        user: usize,
+        phase: u8, // registration: 0 start,1 respond,2 finish,3 store ; login: 10 start,11 respond,12 finish,13 server finish
+        st: u32,
+        req: u32,
+        resp: u32,
+        sst: u32,
+        fin: u32,
+        ctx: usize,
+    }
+    let nusers = 2 + g.below(3);
+    let mut users: Vec<User> = (0..nusers)
+        .map(|_| User { setup: 0, pw: g.below(pws.len()), cred: g.below(creds.len()), ids: g.below(idsets.len()), ksf: g.below(ksfs.len()), record: None })
+        .collect();
+    let mut sess: Vec<Sess> = vec![];
+    // pools of everything that ever existed, by role
+    let (mut p_regreq, mut p_regresp, mut p_upload, mut p_record, mut p_creq, mut p_cresp, mut p_fin, mut p_cst, mut p_sst, mut p_rst) = (vec![], vec![], vec![], vec![], vec![], vec![], vec![], vec![], vec![], vec![]);
+    let mut all: Vec<u32> = setups.clone();
+    let pick_via = |g: &mut Gen| if g.chance(2, 3) { crate::suite::Codec::Mem } else { via(g) };
+    // returns `honest` or, when deviating on this slot, a random pool member
+    fn choose(g: &mut Gen, dev: bool, honest: u32, pool: &[u32]) -> u32 {
+        if dev && !pool.is_empty() {
+            *g.pick(pool)
+        } else {
+            honest
+        }
+    }
+    for _ in 0..nops {
+        // start something new, or advance a session
+        if sess.is_empty() || g.chance(1, 4) {
+            let u = g.below(users.len());
+            let login = users[u].record.is_some() && g.chance(3, 4);
+            sess.push(Sess { user: u, phase: if login { 10 } else { 0 }, st: 0, req: 0, resp: 0, sst: 0, fin: 0, ctx: g.below(ctxs.len()) });
+        }
+        let si = g.below(sess.len());
+        let mut se = sess[si].clone();
+        let u = users[se.user].clone();
+        let deviate = g.chance(1, 4);
+        let slot = g.below(6); // which aspect deviates
+        let dev = |k: usize| deviate && slot == k;
+        if deviate && slot == 5 && !all.is_empty() {
+            b.push(Op::Reload { id: *g.pick(&all), codec: *g.pick(&crate::suite::BYTE_CODECS) });
+        }
+        let setup_of = |g: &mut Gen, dev: bool| if dev { *g.pick(&setups) } else { setups[u.setup] };
+        match se.phase {
+            0 => {
+                let (st, msg) = (b.id(), b.id());
+                let tape = b.tape("regstart");
+                b.push(Op::RegStart { st, msg, tape, pw: pws[u.pw].clone().into() });
+                se.st = st;
+                se.req = msg;
+                p_rst.push(st);
+                p_regreq.push(msg);
+                all.extend([st, msg]);
+                se.phase = 1;
+            }
+            1 => {
+                let out = b.id();
+                let cred = if dev(1) { g.pick(&creds).clone() } else { creds[u.cred].clone() };
+                let su = setup_of(&mut g, dev(2));
+                let rq = choose(&mut g, dev(0), se.req, &p_regreq);
+                b.push(Op::RegRespond { out, setup: Ref::via(su, pick_via(&mut g)), req: Ref::via(rq, pick_via(&mut g)), cred: cred.into() });
+                se.resp = out;
+                p_regresp.push(out);
+                all.push(out);
+                se.phase = 2;
+            }
+            2 => {
+                let out = b.id();
+                let tape = b.tape("regfinish");
+                let pw = if dev(3) { g.pick(&pws).clone() } else { pws[u.pw].clone() };
+                let rs = choose(&mut g, dev(0), se.resp, &p_regresp);
+                let st = choose(&mut g, dev(4), se.st, &p_rst);
+                b.push(Op::RegFinish { out, tape, st: Ref::via(st, pick_via(&mut g)), pw: pw.into(), resp: Ref::via(rs, pick_via(&mut g)), ids: idsets[u.ids].clone(), ksf: ksfs[u.ksf].clone() });
+                se.fin = out;
+                p_upload.push(out);
+                all.push(out);
+                se.phase = 3;
+            }
+            3 => {
+                let out = b.id();
+                let up = choose(&mut g, dev(0), se.fin, &p_upload);
+                b.push(Op::RegStore { out, upload: Ref::via(up, pick_via(&mut g)) });
+                p_record.push(out);
+                all.push(out);
+                // the user's record of file is the last one stored for them (a re-registration replaces it)
+                users[se.user].record = Some(out);
+                se.phase = 99;
+            }
+            10 => {
+                let (st, msg) = (b.id(), b.id());
+                let tape = b.tape("loginstart");
+                let pw = if dev(3) { g.pick(&pws).clone() } else { pws[u.pw].clone() };
+                b.push(Op::LoginStart { st, msg, tape, pw: pw.into() });
+                se.st = st;
+                se.req = msg;
+                p_cst.push(st);
+                p_creq.push(msg);
+                all.extend([st, msg]);
+                se.phase = 11;
+            }
+            11 => {
+                let (st, msg) = (b.id(), b.id());
+                let tape = b.tape("loginrespond");
+                let rec = if dev(4) {
+                    if g.chance(1, 3) { None } else { p_record.first().map(|_| *g.pick(&p_record)) }
+                } else {
+                    u.record
+                };
+                let cred = if dev(1) { g.pick(&creds).clone() } else { creds[u.cred].clone() };
+                let su = setup_of(&mut g, dev(2));
+                let rq = choose(&mut g, dev(0), se.req, &p_creq);
+                let ids = if dev(3) { g.pick(&idsets).clone() } else { idsets[u.ids].clone() };
+                b.push(Op::LoginRespond { st, msg, tape, setup: Ref::via(su, pick_via(&mut g)), record: rec.map(|r| Ref::via(r, pick_via(&mut g))), req: Ref::via(rq, pick_via(&mut g)), cred: cred.into(), ctx: ctxs[se.ctx].clone().map(Into::into), ids });
+                se.sst = st;
+                se.resp = msg;
+                p_sst.push(st);
+                p_cresp.push(msg);
+                all.extend([st, msg]);
+                se.phase = 12;
+            }
+            12 => {
+                let out = b.id();
+                let pw = if dev(3) { g.pick(&pws).clone() } else { pws[u.pw].clone() };
+                let rs = choose(&mut g, dev(0), se.resp, &p_cresp);
+                let st = choose(&mut g, dev(4), se.st, &p_cst);
+                let ctx = if dev(1) { g.pick(&ctxs).clone() } else { ctxs[se.ctx].clone() };
+                let ids = if dev(2) { g.pick(&idsets).clone() } else { idsets[u.ids].clone() };
+                let ksf = if deviate && slot == 5 { g.pick(&ksfs).clone() } else { ksfs[u.ksf].clone() };
+                b.push(Op::LoginFinish { out, st: Ref::via(st, pick_via(&mut g)), pw: pw.into(), resp: Ref::via(rs, pick_via(&mut g)), ctx: ctx.map(Into::into), ids, ksf });
+                se.fin = out;
+                p_fin.push(out);
+                all.push(out);
+                se.phase = 13;
+            }
+            13 => {
+                let f = choose(&mut g, dev(0), se.fin, &p_fin);
+                let st = choose(&mut g, dev(4), se.sst, &p_sst);
+                b.push(Op::ServerFinish { st: Ref::via(st, pick_via(&mut g)), fin: Ref::via(f, pick_via(&mut g)) });
+                // duplicate delivery of the same finalization, sometimes
+                if g.chance(1, 8) {
+                    b.push(Op::ServerFinish { st: Ref::via(st, pick_via(&mut g)), fin: Ref::via(f, pick_via(&mut g)) });
+                }
+                se.phase = 99;
+            }
+            _ => {}
+        }
+        if se.phase == 99 {
+            sess.remove(si);
+        } else {
+            sess[si] = se;
+        }
+    }
+    b.w
 }
